@@ -275,8 +275,10 @@ def fmt_key(k):
     return f"{float(k):.17E}" if k < 2 ** 53 else repr(float(k))
 
 
-def write_output(m, path, nout=None):
-    """Write output_NNNNN under path; returns the directory."""
+def write_output(m, path, nout=None, max_level_written=None):
+    """Write output_NNNNN under path; returns the directory.
+    max_level_written: the per-CPU amr / hydro / grav / rt files end after the records of that level (headers unchanged):
+    a reader that stops at that level never notices, one that goes deeper runs off the end of the file."""
     case = m.case
     nout = case["nout"] if nout is None else nout
     num = str(nout).zfill(5)
@@ -401,7 +403,7 @@ def write_output(m, path, nout=None):
             _ints(f, np.ones(ncoarse))                 # son
             _ints(f, np.zeros(ncoarse))                # flag1
             _ints(f, np.ones(ncoarse))                 # cpu_map
-            for l in range(L):
+            for l in range(L if max_level_written is None else min(L, max_level_written)):
                 lv = m.levels[l]
                 for dom in range(ncpu + B):
                     kind, idx = slots[l][dom]
@@ -432,7 +434,7 @@ def write_output(m, path, nout=None):
         def write_cellfile(ftype, names, header):
             with files(ftype) as f:
                 header(f)
-                for l in range(L):
+                for l in range(L if max_level_written is None else min(L, max_level_written)):
                     lv = m.levels[l]
                     for dom in range(ncpu + B):
                         kind, idx = slots[l][dom]
